@@ -494,3 +494,88 @@ Proof.
       replace (d * NANOS_PER_DAY + tn - off * NANOS_PER_SEC + off * NANOS_PER_SEC) with (d * NANOS_PER_DAY + tn) by lia.
       apply day_in_range; [exact Hdi | lia].
 Qed.
+
+(* ================= formatting the parsed value again gives the same text ================= *)
+Definition same_but_subsec (F F' : vfields) : Prop :=
+  vf_bc F' = vf_bc F /\ vf_year F' = vf_year F /\ vf_month F' = vf_month F /\ vf_day F' = vf_day F /\ vf_doy F' = vf_doy F /\
+  vf_wd F' = vf_wd F /\ vf_week F' = vf_week F /\ vf_hour F' = vf_hour F /\ vf_minute F' = vf_minute F /\ vf_second F' = vf_second F /\
+  vf_offset F' = vf_offset F.
+Lemma render_field_trunc F F' c w : same_but_subsec F F' -> 1 <= w ->
+  (c = 110 -> vf_subsec F' / 10 ^ (9 - n_digits w) = vf_subsec F / 10 ^ (9 - n_digits w)) ->
+  render_field F' c w = render_field F c w.
+Proof.
+  intros (E1 & E2 & E3 & E4 & E5 & E6 & E7 & E8 & E9 & E10 & E11) Hw Hn. unfold render_field. cbv zeta.
+  rewrite E1, E2, E3, E4, E5, E6, E7, E8, E9, E10, E11.
+  destruct (Z.eq_dec c 110) as [->|Hc].
+  - specialize (Hn eq_refl). unfold n_digits in Hn.
+    assert (C : w = 1 \/ w = 2 \/ w = 3 \/ w = 4 \/ w = 5 \/ 5 < w) by lia.
+    destruct C as [-> | [-> | [-> | [-> | [-> | C]]]]]; cbn [Z.ltb Z.compare Pos.compare Pos.compare_cont Z.eqb Pos.eqb] in *.
+    + change (10 ^ (9 - 1)) with 100000000 in Hn. rewrite Hn. reflexivity.
+    + change (10 ^ (9 - 2)) with 10000000 in Hn. rewrite Hn. reflexivity.
+    + change (10 ^ (9 - 3)) with 1000000 in Hn. rewrite Hn. reflexivity.
+    + change (10 ^ (9 - 6)) with 1000 in Hn. rewrite Hn. reflexivity.
+    + change (10 ^ (9 - 9)) with 1 in Hn. rewrite !Z.div_1_r in Hn. rewrite Hn. reflexivity.
+    + destruct (Z.ltb_spec 5 w); [|lia]. change (10 ^ (9 - 3)) with 1000000 in Hn. cbn [Z.eqb]. rewrite Hn. reflexivity.
+  - destruct c as [|p|p]; try reflexivity. do 7 (try destruct p as [p|p|]); try reflexivity. contradiction.
+Qed.
+
+Lemma render_same kind F F' items : same_but_subsec F F' -> Forall (fun it => item_ok it = true) items ->
+  (forall w, In (PField 110 w) items -> vf_subsec F' / 10 ^ (9 - n_digits w) = vf_subsec F / 10 ^ (9 - n_digits w)) ->
+  render kind F' items = render kind F items.
+Proof.
+  intros Hs Hok Hn. unfold render. rewrite !flat_map_concat_map. f_equal. apply map_ext_in. intros it Hin.
+  rewrite Forall_forall in Hok. specialize (Hok it Hin). destruct it as [c w | c k | txt | k]; cbn [render_item]; try reflexivity.
+  cbn [item_ok] in Hok. apply andb_true_iff in Hok as [Hw _]. apply Z.leb_le in Hw.
+  destruct (understands kind c); [|reflexivity]. apply render_field_trunc; [exact Hs | exact Hw |]. intros ->. apply Hn. exact Hin.
+Qed.
+
+Lemma n_item_has d n off items w : In (PField 110 w) items -> has d n off items (n_unit w) = true.
+Proof.
+  intros Hin. unfold has. apply existsb_exists. exists (item_expected d n off (PField 110 w)). split; [apply in_map; exact Hin|].
+  cbn [item_expected]. change (is_date_sym 110) with false. change (is_time_sym 110) with true. cbv iota. unfold expected_time. cbv zeta.
+  cbn [Z.eqb Pos.eqb orb sets_unit]. apply punit_eqb_eq. reflexivity.
+Qed.
+Lemma n_unit_scale w : 1 <= w -> sub_scale (n_unit w) = 10 ^ (9 - n_digits w) /\ is_sub (n_unit w) = true.
+Proof.
+  intros Hw. unfold n_unit, n_digits. assert (C : w = 1 \/ w = 2 \/ w = 3 \/ w = 4 \/ w = 5 \/ 5 < w) by lia.
+  destruct C as [-> | [-> | [-> | [-> | [-> | C]]]]]; try (split; reflexivity).
+  destruct (Z.ltb_spec 5 w); [|lia]. assert (E : match w with 1 => PDecis | 2 => PCentis | 4 => PMicros | 5 => PNanos | _ => PMillis end = PMillis).
+  { destruct w as [|p|p]; try lia. do 3 (try destruct p as [p|p|]); try lia; reflexivity. }
+  rewrite E. split; reflexivity.
+Qed.
+
+(* the complete statement for DateTime *)
+Theorem dt_roundtrip_reformat now v items sel : Valid_dt v -> swf None items = true ->
+  let L := local_instant v in let d := L / NANOS_PER_DAY in let n := L mod NANOS_PER_DAY in let off := dt_off v in
+  fits_chain d off (fields_of_day d n off) items [] ->
+  has d n off items PYear = true -> (has d n off items PDayOfYear = true \/ (has d n off items PMonth = true /\ has d n off items PDayOfMonth = true)) ->
+  (has d n off items PHour = true \/ (has d n off items PPeriodHour = true /\ has d n off items PPeriod = true)) ->
+  has d n off items PMinute = true -> has d n off items PSecond = true ->
+  match sel with Some s => is_sub s = true | None => True end ->
+  (forall u, is_sub u = true -> has d n off items u = match sel with Some s => punit_eqb s u | None => false end) ->
+  has d n off items POffset = true ->
+  exists txt v', dt_format v (unparse items) = Ok txt /\ dt_parse now txt (unparse items) = Ok v' /\
+    dt_off v' = off /\ instant v' = L / prec_unit sel * prec_unit sel - off * NANOS_PER_SEC /\ Valid_dt v' /\
+    dt_format v' (unparse items) = Ok txt.
+Proof.
+  intros Hv Hswf. cbv zeta. intros Hfit Hy Hmd Hh Hmi Hs Hsel Hsub Hz.
+  destruct (dt_roundtrip now v items sel Hv Hswf Hfit Hy Hmd Hh Hmi Hs Hsel Hsub Hz) as (txt & v' & Ef & Ep & Eo & Ei & Vv').
+  exists txt, v'. repeat (split; [assumption|]).
+  rewrite (dt_format_items v items Hv Hswf) in Ef. injection Ef as <-. rewrite (dt_format_items v' items Vv' Hswf). f_equal.
+  set (L := local_instant v) in *. set (off := dt_off v) in *. set (U := prec_unit sel) in *.
+  pose proof (prec_unit_ok sel Hsel) as HU. fold U in HU.
+  assert (EL : local_instant v' = L / U * U) by (unfold local_instant; rewrite Ei, Eo; lia).
+  rewrite EL, Eo. pose proof (swf_items_ok items None Hswf) as Hok.
+  apply render_same; [| exact Hok |].
+  - unfold same_but_subsec, fields_of_day.
+    assert (Ed : L / U * U / NANOS_PER_DAY = L / NANOS_PER_DAY) by (unfold NANOS_PER_DAY; destruct HU as [-> | [-> | [-> | [-> | [-> | ->]]]]]; lia).
+    rewrite Ed. destruct (days_to_date (L / NANOS_PER_DAY)) as [[y m] dd].
+    cbn [vf_bc vf_year vf_month vf_day vf_doy vf_wd vf_week vf_hour vf_minute vf_second vf_offset].
+    repeat split; unfold NANOS_PER_DAY, NANOS_PER_HOUR, NANOS_PER_MINUTE, NANOS_PER_SEC; destruct HU as [-> | [-> | [-> | [-> | [-> | ->]]]]]; lia.
+  - intros w Hin. pose proof (n_item_has (L / NANOS_PER_DAY) (L mod NANOS_PER_DAY) off items w Hin) as Hh'.
+    rewrite Forall_forall in Hok. pose proof (Hok _ Hin) as Hi. cbn [item_ok] in Hi. apply andb_true_iff in Hi as [Hw _]. apply Z.leb_le in Hw.
+    destruct (n_unit_scale w Hw) as [Esc Hsb]. rewrite (Hsub _ Hsb) in Hh'. destruct sel as [s0|]; [|discriminate]. apply punit_eqb_eq in Hh'. subst s0.
+    unfold U, prec_unit in *. rewrite <- Esc. set (X := sub_scale (n_unit w)) in *.
+    unfold fields_of_day. destruct (days_to_date _) as [[y1 m1] d1]. destruct (days_to_date _) as [[y2 m2] d2]. cbn [vf_subsec].
+    unfold NANOS_PER_DAY, NANOS_PER_SEC. destruct HU as [E | [E | [E | [E | [E | E]]]]]; rewrite E; lia.
+Qed.
